@@ -228,6 +228,34 @@ def run(ctx: Ctx):
             ctx.violation("grid_slice_interp", "not-linear-blend", "slice is not the linear blend of the neighbouring sub-grids", {**case, "expected": ref.tolist()})
         elif kind == 0 and not np.all(np.abs(got - subs[int(np.argmin(np.abs(grid - val)))]) <= 4 * np.finfo(float).eps * scale):
             ctx.violation("grid_slice_interp", "node-not-reproduced", "slice at a node does not reproduce the stored sub-grid", case)
+    # ---------------- (b') slices of 3- and 4-dimensional grids along EVERY axis (by index and by name), equal-length axes included
+    # (a permutation of the remaining dimensions is silent there): data, remaining axes and names against numpy
+    for t in range(120 if ctx.thorough else 24):
+        nd = 3 + t % 2
+        k_ = int(rng.integers(2, 5))
+        shape = (k_,) * nd if t % 3 else tuple(int(x) for x in rng.integers(2, 5, nd))
+        data = rng.standard_normal(shape)
+        axes = [np.sort(rng.uniform(-5, 5, n_)) + 10.0 * j_ + np.arange(n_) * 1e-3 for j_, n_ in enumerate(shape)]
+        names = ["ax%d" % j_ for j_ in range(nd)]
+        gN = NssGrid(data, axes, names)
+        ax = t % nd
+        kk = int(rng.integers(0, shape[ax] - 1))
+        val = float(axes[ax][kk]) if t % 4 == 0 else float(axes[ax][kk] + rng.uniform(0.1, 0.9) * (axes[ax][kk + 1] - axes[ax][kk]))
+        tt = (val - axes[ax][kk]) / (axes[ax][kk + 1] - axes[ax][kk])
+        ref = (1 - tt) * np.take(data, kk, axis=ax) + tt * np.take(data, kk + 1, axis=ax)
+        ctx.case(("slice-nd", nd, ax, t), None); ctx.count(f"slice_{nd}d_axis{ax}")
+        case = {"shape": list(shape), "axis": ax, "by": "name" if t % 2 else "index", "value": val}
+        try:
+            rN = grid_slice_interp(gN, val, names[ax] if t % 2 else ax)
+            want_names = [n_ for j_, n_ in enumerate(names) if j_ != ax]
+            want_axes = [a_ for j_, a_ in enumerate(axes) if j_ != ax]
+            ok_ = (list(rN.axis_names) == want_names and len(rN.axes) == nd - 1 and all(np.array_equal(a_, b_) for a_, b_ in zip(rN.axes, want_axes))
+                   and np.asarray(rN.data).shape == ref.shape and np.allclose(np.asarray(rN.data), ref, rtol=1e-12, atol=1e-14))
+            if not ok_:
+                ctx.violation("grid_slice_interp", "not-linear-blend:n-dimensional", f"the slice of a {nd}-dimensional grid along axis {ax} is not the linear blend of the neighbouring sub-grids (data, axes or names)",
+                              {**case, "names": list(rN.axis_names), "expected_names": want_names, "result_shape": list(np.asarray(rN.data).shape)})
+        except Exception as ex:  # noqa
+            ctx.violation("grid_slice_interp", "raises", f"slicing a {nd}-dimensional grid along axis {ax} raises {type(ex).__name__}: {str(ex)[:100]}", case)
     # ---------------- (c) bracketing interpolation on non-decreasing rows with plateaux
     n_rows = 3000 if ctx.thorough else 400
     for t in range(0, n_rows, 8):
